@@ -138,7 +138,7 @@ static const char KEY_SLASH_QUERY[] = "C13:defect:slash-in-query-without-path-ex
 
 /* ------------------------------------------------------------------ run-wide counters (flushed once) */
 static uint64_t n_cross, n_sweep, n_random_uri, n_parse_ok, n_parse_rejected, n_cursors, n_builder, n_builder_rejected, n_enc_path,
-    n_enc_param, n_dec, n_dec_rejected, n_it_params, n_it_queries, n_list_calls, n_ambiguous, n_defect_colon, n_defect_slash,
+    n_enc_param, n_dec, n_dec_rejected, n_it_params, n_it_queries, n_it_after_end, n_list_calls, n_ambiguous, n_defect_colon, n_defect_slash,
     n_defect_colon_bad, n_defect_slash_bad, n_py, n_dec_sweep, n_enc_start_lengths, n_random_inputs;
 static unsigned s_defect_reported[2];
 static FILE *s_py;
@@ -615,6 +615,17 @@ static void check_query(struct aws_byte_cursor q, const uint8_t *text, size_t n,
     for (;;) {
         bool more = uri ? aws_uri_query_string_next_param(uri, &param) : aws_query_string_next_param(q, &param);
         if (!more) {
+            /* "If false is returned, there are no further params": asking again with the same in/out argument stays at the end */
+            for (unsigned again = 1 + (unsigned)mon_below(&mon_case_rng, 2); again; --again) {
+                bool more2 = uri ? aws_uri_query_string_next_param(uri, &param) : aws_query_string_next_param(q, &param);
+                ++n_it_after_end;
+                if (more2) {
+                    mon_violation("C13:query:iterator-yields-after-end",
+                                  "%s query '%s': after reporting the end (%zu parameters), another call yielded '%s'='%s'", ctx,
+                                  printable(text, n), cnt, printable(param.key.ptr, param.key.len), printable(param.value.ptr, param.value.len));
+                    return;
+                }
+            }
             break;
         }
         if (cnt >= limit) {
@@ -1601,6 +1612,7 @@ int main(int argc, char **argv) {
     mon_count("decode_rejected_malformed", n_dec_rejected);
     mon_count("decode_percent_pair_sweep_calls", n_dec_sweep);
     mon_count("query_strings_iterated", n_it_queries);
+    mon_count("query_iterator_calls_after_end", n_it_after_end);
     mon_count("query_parameters_yielded", n_it_params);
     mon_count("query_list_form_calls", n_list_calls);
     mon_count("ambiguous_host_colon_slash_inputs", n_ambiguous);
